@@ -387,6 +387,28 @@ func TestC16(t *testing.T) {
 			judge(t.Fatalf, c16Case{DER: der, Base: base.Name, N: n.String(), E: 65537, How: "divisor"}, nil)
 		}
 	}
+	// many small factors at once: products of sets of small primes - in particular sets whose product is 1 modulo 2^64
+	// or modulo 2^32 (found by a birthday search; a GCD or a remainder squeezed into one machine word reads them as 1),
+	// all odd primes below 752, the first 10 / 20 / 40 of them - times a large prime
+	for si, g := range smallFactorProducts() {
+		for _, bits := range []int{2048, 3072} {
+			k++
+			if !stats.Mine(k) {
+				continue
+			}
+			if g.BitLen() >= bits-64 {
+				continue
+			}
+			c := new(big.Int).Lsh(big.NewInt(1), uint(bits-1))
+			c.Div(c, g)
+			c = nextPrime(c.Add(c, big.NewInt(1)))
+			n := new(big.Int).Mul(g, c)
+			base := co.Certs[bases[(si+bits)%len(bases)]]
+			if der, ok := build(base, n, 65537); ok {
+				judge(t.Fatalf, c16Case{DER: der, Base: base.Name, N: n.String(), E: 65537, How: "many-small-factors"}, nil)
+			}
+		}
+	}
 	for _, bits := range []int{1023, 1024, 1025, 2040, 2047, 2048, 2049, 2056, 3071, 3072, 3073, 4096, 512, 8, 2, 1} {
 		for _, e := range []int64{1, 2, 3, 4, 65535, 65536, 65537, 65538, 1<<31 - 1, 1<<62 + 1} {
 			for bi, b := range bases {
@@ -623,4 +645,91 @@ func init() {
 		}
 		return judgeC16(rec, c)
 	})
+}
+
+// unitLowWordSets: sets of odd primes below 752 whose product is congruent to 1 modulo 2^64 (four-list birthday
+// search over subset products; checked again in smallFactorProducts).
+var unitLowWordSets = [][]int64{
+	{31, 41, 47, 59, 97, 109, 173, 179, 191, 211, 227, 307, 317, 331, 347, 367, 379, 383, 409, 419, 449, 467, 479, 509, 523, 593, 599, 617, 641, 647, 653, 673, 727, 743, 751},
+	{3, 7, 13, 19, 29, 31, 43, 53, 59, 61, 83, 101, 107, 109, 149, 167, 173, 181, 191, 229, 257, 269, 281, 311, 313, 347, 353, 367, 373, 457, 463, 467, 487, 509, 521, 563, 587, 599, 607, 631, 647, 673, 691, 709, 719, 739, 751},
+	{11, 29, 41, 43, 47, 83, 89, 97, 103, 109, 151, 163, 167, 179, 181, 191, 193, 197, 223, 227, 239, 251, 293, 311, 313, 353, 383, 389, 421, 439, 443, 461, 547, 563, 577, 599, 607, 617, 647, 677, 733, 743},
+	{13, 17, 23, 29, 37, 43, 53, 59, 71, 73, 89, 97, 101, 103, 127, 137, 163, 167, 191, 227, 229, 263, 277, 307, 311, 317, 331, 359, 367, 383, 401, 419, 443, 449, 457, 461, 463, 467, 487, 523, 547, 569, 577, 587, 601, 607, 641, 643, 647, 653, 659, 673, 683, 739, 751},
+}
+
+var (
+	sfpOnce sync.Once
+	sfpList []*big.Int
+)
+
+// smallFactorProducts: see the call site. The sets congruent to 1 modulo 2^32 are found here (meet in the middle
+// over two halves of the primes, deterministic).
+func smallFactorProducts() []*big.Int {
+	sfpOnce.Do(func() {
+		var primes []int64
+		for n := int64(3); n < 752; n += 2 {
+			if big.NewInt(n).ProbablyPrime(8) {
+				primes = append(primes, n)
+			}
+		}
+		prod := func(set []int64) *big.Int {
+			g := big.NewInt(1)
+			for _, p := range set {
+				g.Mul(g, big.NewInt(p))
+			}
+			return g
+		}
+		mask64 := new(big.Int).SetUint64(^uint64(0))
+		for _, set := range unitLowWordSets {
+			g := prod(set)
+			if new(big.Int).And(g, mask64).Cmp(big.NewInt(1)) == 0 && g.BitLen() > 64 {
+				sfpList = append(sfpList, g)
+			}
+		}
+		// 1 modulo 2^32: subsets of primes[0:20] against subsets of primes[20:40]
+		inv32 := func(a uint32) uint32 {
+			x := a
+			for i := 0; i < 5; i++ {
+				x *= 2 - a*x
+			}
+			return x
+		}
+		left := map[uint32]uint32{}
+		for m := uint32(1); m < 1<<18; m++ {
+			p := uint32(1)
+			for b := 0; b < 18; b++ {
+				if m>>uint(b)&1 == 1 {
+					p *= uint32(primes[b])
+				}
+			}
+			if _, dup := left[p]; !dup {
+				left[p] = m
+			}
+		}
+		found := 0
+		for m := uint32(1); m < 1<<18 && found < 3; m++ {
+			p := uint32(1)
+			for b := 0; b < 18; b++ {
+				if m>>uint(b)&1 == 1 {
+					p *= uint32(primes[20+b])
+				}
+			}
+			if lm, ok := left[inv32(p)]; ok {
+				var set []int64
+				for b := 0; b < 18; b++ {
+					if lm>>uint(b)&1 == 1 {
+						set = append(set, primes[b])
+					}
+					if m>>uint(b)&1 == 1 {
+						set = append(set, primes[20+b])
+					}
+				}
+				if g := prod(set); g.BitLen() > 32 {
+					sfpList = append(sfpList, g)
+					found++
+				}
+			}
+		}
+		sfpList = append(sfpList, prod(primes), prod(primes[:10]), prod(primes[:20]), prod(primes[:40]), prod(primes[len(primes)-12:]))
+	})
+	return sfpList
 }
